@@ -207,6 +207,20 @@ CHECKS = {
               "decreasing under refinement."),
         design_ref="DESIGN.md section 4, C02",
         note=LEVEL_NOTE_N + "; 'never decrease' for S_a only where T >= 6 dt at both steps (below, the PGA rule of C03 applies)"),
+    "C03": dict(
+        engine="Spectra",
+        technique="TLA+ integer (tick) model of the PGA branch and refinement rule checked exhaustively by TLC and replayed on exact ticks; spectra, object rule and energy sums defined over the exact oscillator flow and validated by a TLC trace spec with one event per period",
+        category="model_checking",
+        text=("MC_Spectra: dt = 1..4 ticks, T = 1..40 ticks, min_dt_ratio in {1,2,4,8}: StepRule, Minimal, KRange on the model; replayed with "
+              "tick = 2^-7 s (T = 6 dt hit exactly): pseudo_response_spectra reports exactly the PGA iff T < 6 dt; AccSignal.s_a obeys the "
+              "rule at its integration step. Trace_Spectra: pseudo_ and true_response_spectra with array / list / tuple periods on both sides "
+              "of 6 dt (5.5, 5.99, 6, 6.01, 6.5), with / without a leading 0, xi in [0, 0.999]: S_d = peak of the exact flow (C01 tolerance), "
+              "PSV = w S_d, PSA = w^2 S_d, true S_v / S_a, undamped true = pseudo, finite, non-negative, one per period; AccSignal "
+              "s_d/s_v/s_a for min_dt_ratio in {1,2,4,8} accepted iff equal to the model's spectra of the record refined by some integer "
+              "k in [k_min, 2 k_min + 2] and not below the raw-sample value; input / kinetic energy spectra = defining sums over the "
+              "reported and the exact response; end-of-record input energy non-negative (one open known finding)."),
+        design_ref="DESIGN.md section 4, C03",
+        note=LEVEL_NOTE_N + "; object API with ascending period lists"),
 }
 
 NOT_YET = {}
